@@ -835,10 +835,15 @@ def run_event(b, ev, cfg, kill_at=None):
             sid = ev[1]
             getattr(b.so, ev[2])(sid, *ev[3], callback=functools.partial(b.rec.cb, sid), **dict(ev[4]))
         elif kind == 'child':
-            if len(ev) > 1:
+            if len(ev) > 1 and ev[1] == 'fail':
+                b.vfs.fail_writes = True     # the child cannot create its output file (disk full): it exits with an error code
+            elif len(ev) > 1:
                 b.vfs.kill_at = ev[1]        # the CHILD process is killed before this mutation, the node lives on
                 b.vfs.on_kill = None
-            run_fork_child(b)
+            try:
+                run_fork_child(b)
+            finally:
+                b.vfs.fail_writes = False
         elif kind == 'bop':
             # ('bop', sid, consumer index, method, args): a call on a battery
             getattr(_consumers(b.so)[ev[2]], ev[3])(*ev[4], callback=functools.partial(b.rec.cb, ev[1]))
@@ -1049,6 +1054,7 @@ class ClusterModel(object):
                 if bud['Q'] > 0:
                     for kk in range(self.st.step(w.nk(n), ('child',))[4]):
                         evs.append(('Ck', n, kk))
+                    evs.append(('Ce', n))
             if bud['V'] > 0:
                 for v in self.cfg.versions:
                     evs.append(('V', n, v))
@@ -1270,6 +1276,9 @@ class ClusterModel(object):
         if kind == 'Ck':
             bud = self.spend(w, 'Q')
             return bud and self.node_step(w, ev[1], ('child', ev[2]), budget=bud, label=ev)
+        if kind == 'Ce':
+            bud = self.spend(w, 'Q')
+            return bud and self.node_step(w, ev[1], ('child', 'fail'), budget=bud, label=ev)
         if kind == 'V':
             bud = self.spend(w, 'V') if ev[-1] != 'free' else w.budget
             return bud and self.node_step(w, ev[1], ('setver', ev[2], ('v', w.nsub)), budget=bud, nsub=w.nsub + 1, label=ev)
